@@ -24,8 +24,11 @@ func VerifUsageDrivenCleanupOrder() {
 	dir := filepath.Join(verif.TempDir(), "c10u", "cache")
 	cs, err := newCacheStore(dir, base.NewLocalFileStore(clk), 0)
 	verifMust(err)
-	n := verif.Bound("files", 2, 3)
-	files := verifPopulate(cs, n, false)
+	// Two files in both tiers: a third one multiplies the comparator's case
+	// splits inside the sort beyond the thorough budget; the thorough tier
+	// adds the remaining flag kinds (persist=false, no access time) instead.
+	n := 2
+	files := verifPopulate(cs, n, verif.Bound("all-flag-kinds", 0, 1) == 1)
 	clk.Set(time.Unix(verifInstant("now"), 0))
 
 	// bytes to free = total - total*50/100: 0, 1, 2, … for total 0, 1, 3, …
